@@ -17,6 +17,7 @@ size_t ref_stop_lo, ref_stop_hi;
 static struct lp_msg *ref_stop_ev;
 
 static struct topology *g_topo;
+static unsigned graph_links[MODEL_MAX_LPS]; /* distinct links added from each region of a graph topology */
 
 double term_time(void) { return (double)P.term_time_q / 4.0; }
 
@@ -584,7 +585,8 @@ static void topo_selfcheck(lp_id_t me)
 			expect = (long)regions - 1;
 			break;
 		default:
-			break; /* graph: counted by the engine from the links it added */
+			expect = (long)graph_links[me]; /* graph: the number of links added from that region */
+			break;
 	}
 	long cd = (long)CountDirections(me, g_topo);
 	if(expect >= 0 && cd != expect)
@@ -638,8 +640,18 @@ void model_setup(void)
 		lp_id_t n = (lp_id_t)P.n_lps;
 		for(lp_id_t i = 0; i < n; i++) {
 			unsigned links = (unsigned)prng_below(&r, 4);
-			for(unsigned k = 0; k < links; k++)
-				rk->AddTopologyLink(g_topo, i, prng_below(&r, n), 1.0 / (double)(links ? links : 1));
+			uint64_t seen = 0;
+			graph_links[i] = 0;
+			for(unsigned k = 0; k < links; k++) {
+				/* probabilities need not sum to 1 */
+				double pr = prng_below(&r, 3) ? 1.0 / (double)links : (double)prng_below(&r, 101) / 100.0;
+				lp_id_t to = prng_below(&r, n);
+				rk->AddTopologyLink(g_topo, i, to, pr);
+				if(!(seen >> to & 1)) {
+					seen |= 1ull << to;
+					graph_links[i]++;
+				}
+			}
 		}
 	}
 }
